@@ -153,6 +153,71 @@ func (g *gstate) forkFirstPattern() {
 	fmt.Println("dump")
 }
 
+// loadForkPattern: a side branch (and a branch of it) whose tip is within the load depth but whose fork point is
+// below it; Save, Load with a small depth, then the side branches are extended and overtake.
+func (g *gstate) loadForkPattern() {
+	if g.forks > 6 || !g.byID[g.focus].alive {
+		return
+	}
+	tip := g.focus
+	n := g.defBits(tip, 0x1d00ffff)
+	g.sub(n.id)
+	tip = n.id
+	// the side branch forks right below the tip (within any fork-depth limit)
+	side := g.byID[tip].prev
+	if p, ok := g.byID[side]; !ok || !p.alive {
+		return
+	}
+	st := side
+	d := g.maxd + 2 + g.r.Intn(3)
+	grow := d + 1 + g.r.Intn(4)
+	var sub2 int = -1
+	for j := 0; j < grow; j++ {
+		m := g.defBits(tip, 0x1d00ffff)
+		g.sub(m.id)
+		tip = m.id
+		if j < grow-2 || g.r.Chance(50) { // the side branch keeps up, a little behind
+			k := g.defBits(st, 0x1d00ffff)
+			g.sub(k.id)
+			st = k.id
+			if sub2 == -1 && j >= 1 && g.r.Chance(40) && g.forks < 8 {
+				sub2 = g.byID[st].prev // a branch of the side branch
+			}
+		}
+	}
+	s2 := sub2
+	if sub2 != -1 {
+		for j := 0; j < 2+g.r.Intn(3); j++ {
+			k := g.defBits(s2, 0x1d00ffff)
+			g.sub(k.id)
+			s2 = k.id
+		}
+	}
+	g.focus = tip
+	fmt.Println("dump")
+	fmt.Println("save")
+	g.snapshot()
+	fmt.Printf("loadd d=%d\n", d)
+	g.restore()
+	fmt.Println("dump")
+	k := g.defBits(st, 0x1d00ffff)
+	g.sub(k.id)
+	st = k.id
+	heavy := st
+	if sub2 != -1 && g.r.Chance(60) {
+		heavy = s2
+	}
+	for j := 0; j < 1+g.r.Intn(2); j++ {
+		k := g.defBits(heavy, 0x1b00ffff)
+		g.sub(k.id)
+		heavy = k.id
+	}
+	if g.byID[heavy].alive {
+		g.focus = heavy
+	}
+	fmt.Println("dump")
+}
+
 func (g *gstate) def(prev int) *gnode {
 	id := g.next
 	g.next++
@@ -435,13 +500,14 @@ func gen(seed uint64, scripts int, tier string, profile string) {
 			nops = 30 + r.Intn(220)
 		}
 		pClean, pSL, pCrash, pMark, pLoc, pRefuse, pProof := 0, 0, 0, 0, 0, 0, 0
-		pStraddle, pForkFirst := 0, 0
+		pStraddle, pForkFirst, pLoadFork := 0, 0, 0
 		switch profile {
 		case "clean":
 			pClean = 9
 			pStraddle, pForkFirst = 1, 1
 		case "saveload":
 			pSL, pClean = 8, 3
+			pLoadFork = 2
 		case "crash":
 			pCrash, pClean, pSL = 8, 2, 1
 		case "mark":
@@ -456,10 +522,10 @@ func gen(seed uint64, scripts int, tier string, profile string) {
 			g.blocks = true
 		case "mixed":
 			pClean, pSL, pCrash, pMark, pLoc, pRefuse = 4, 3, 1, 2, 3, 2
-			pStraddle, pForkFirst = 1, 1
+			pStraddle, pForkFirst, pLoadFork = 1, 1, 1
 		}
 		for i := 0; i < nops; i++ {
-			switch r.Pick(46, 10, 12, 3, 2, 3, pClean, pSL, pCrash, pMark, pLoc, pRefuse, 3, 1, pProof, pStraddle, pForkFirst) {
+			switch r.Pick(46, 10, 12, 3, 2, 3, pClean, pSL, pCrash, pMark, pLoc, pRefuse, 3, 1, pProof, pStraddle, pForkFirst, pLoadFork) {
 			case 0: // extend the focus chain
 				n := g.def(g.focus)
 				g.sub(n.id)
@@ -549,6 +615,8 @@ func gen(seed uint64, scripts int, tier string, profile string) {
 				g.straddlePattern()
 			case 16:
 				g.forkFirstPattern()
+			case 17:
+				g.loadForkPattern()
 			}
 		}
 		fmt.Println("dump")
